@@ -478,10 +478,48 @@ func log2Exact(k *big.Int) (int, bool) {
 }
 
 // mdiv / mmod: Div / Mod by a positive constant, using bitSplit for powers of two.
+// pow2Factor returns the largest g <= e such that 2^g divides every coefficient and the constant of x.
+func pow2Factor(x *Term, e int) (int, *Term) {
+	l := linOf(x)
+	if len(l.coefs) == 0 {
+		return 0, x
+	}
+	g := e
+	if l.c.Sign() != 0 {
+		if z := int(l.c.TrailingZeroBits()); z < g {
+			g = z
+		}
+	}
+	for _, c := range l.coefs {
+		if z := int(c.TrailingZeroBits()); z < g {
+			g = z
+		}
+	}
+	if g <= 0 {
+		return 0, x
+	}
+	n := newLin()
+	d := pow2(g)
+	for id, c := range l.coefs {
+		n.addAtom(l.atoms[id], new(big.Int).Div(c, d))
+	}
+	n.c = new(big.Int).Div(l.c, d)
+	return g, n.build()
+}
+
 func (en *Engine) mdiv(st *State, x *Term, k *big.Int) *Term {
 	if e, ok := log2Exact(k); ok && e > 0 {
+		if g, y := pow2Factor(x, e); g > 0 {
+			if g == e {
+				return y
+			}
+			return en.mdiv(st, y, pow2(e-g))
+		}
 		if _, high, ok := en.bitSplit(st, x, e); ok {
 			return high
+		}
+		if s, ok := en.signQuot(st, x, e); ok {
+			return s
 		}
 	}
 	return en.divBounded(st, x, k)
@@ -489,9 +527,41 @@ func (en *Engine) mdiv(st *State, x *Term, k *big.Int) *Term {
 
 func (en *Engine) mmod(st *State, x *Term, k *big.Int) *Term {
 	if e, ok := log2Exact(k); ok && e > 0 {
+		if g, y := pow2Factor(x, e); g > 0 {
+			if g == e {
+				return ConstI(0)
+			}
+			return MulC(en.mmod(st, y, pow2(e-g)), pow2(g))
+		}
 		if low, _, ok := en.bitSplit(st, x, e); ok {
 			return low
 		}
+		if s, ok := en.signQuot(st, x, e); ok {
+			return Sub(x, MulC(s, k))
+		}
 	}
 	return Mod(x, k)
+}
+
+// signQuot: if -2^e0 <= x < 2^e0 for some e0 <= e then floor(x/2^e) = floor(x/2^e0) (it is -1 or 0);
+// all such quotients of x are normalised to the one with the smallest e0.
+func (en *Engine) signQuot(st *State, x *Term, e int) (*Term, bool) {
+	if en.noElide {
+		return nil, false
+	}
+	iv := st.bounds.Interval(x)
+	if iv.lo == nil || iv.hi == nil || iv.lo.Sign() >= 0 {
+		return nil, false
+	}
+	e0 := iv.hi.BitLen()
+	if n := new(big.Int).Neg(iv.lo); n.Cmp(pow2(e0)) > 0 {
+		e0 = new(big.Int).Sub(n, bi(1)).BitLen()
+	}
+	if e0 > e || e0 == 0 {
+		return nil, false
+	}
+	st.addSide(And(Le(Const(new(big.Int).Neg(pow2(e0))), x), Lt(x, Const(pow2(e0)))), fmt.Sprintf("value stays within +-2^%d, so its floor quotients by larger powers of two coincide", e0))
+	r := Div(x, pow2(e0))
+	st.bounds.Set(r, bi(-1), bi(0))
+	return r, true
 }
